@@ -1,5 +1,5 @@
 CONSTANTS
- SrcArrs = {2,3,4,5,6,7,8,10,11,12}
+ SrcArrs = {2,3,4,5,6,7,8,10,12,13,14}
  SensArrs = {1,4,5,8,10,11,16}
  PPs = {2, 4, 5}
  Fields = {"B", "H"}
